@@ -16,7 +16,39 @@ import (
 var balTransferFn = "contracts/balance.Token.transfer"
 
 func balanceTransferFn(cx *CheckCtx) *ssa.Function {
-	f := cx.locate("contracts/balance", "Token.transfer", "emits the Transfer event", func(f *ssa.Function) bool { return notifiesDirect(f, "Transfer") })
+	// the transfer helper: the function every mutating entry point calls directly on its way to
+	// the Transfer event (the event itself may be emitted by a helper of that helper)
+	var f *ssa.Function
+	agree := true
+	for _, name := range balanceMutators {
+		c := cx.W.Contracts["balance"]
+		if c == nil {
+			break
+		}
+		m := c.Method(name)
+		if m == nil {
+			continue
+		}
+		a := cx.run(m)
+		for _, s := range a.Sites(func(s *Site) bool { return notifyName(s) == "Transfer" }) {
+			k := s.Ctx
+			for k != nil && k.parent != nil && k.parent.parent != nil {
+				k = k.parent
+			}
+			if k == nil || k.parent == nil {
+				agree = false // emitted by the entry point itself
+				continue
+			}
+			if f == nil {
+				f = k.fn
+			} else if f != k.fn {
+				agree = false
+			}
+		}
+	}
+	if f == nil || !agree {
+		f = cx.locate("contracts/balance", "Token.transfer", "emits the Transfer event", func(f *ssa.Function) bool { return notifiesDirect(f, "Transfer") })
+	}
 	if f != nil {
 		balTransferFn = fq(f)
 	}
@@ -636,7 +668,7 @@ func checkTransferLegs(cx *CheckCtx, tc *transferCall, key string) {
 			}
 		}
 		cx.decide(same, "announce", key+"/"+n.name+"/args", "carries "+termList(n.args), n.name+" carries "+termList(got)+" while the legs move "+termList(n.args), n.s.Where(w))
-		once := n.s.Ctx == tc.frame && !blockInLoop(n.s.Instr.Block())
+		once := n.s.Ctx.isDescOrSelf(tc.frame) && !siteInLoop(n.s)
 		cx.decide(once, "announce", key+"/"+n.name+"/once", "emitted at one site outside any loop of Token.transfer", n.name+" can be emitted more than once per transfer", n.s.Where(w))
 		okT := true
 		for _, ex := range a.Exits() {
